@@ -541,12 +541,12 @@ fn check_in(case: &Case, dir: &Path) -> CaseResult {
 
 fn step() -> impl Strategy<Value = Step> {
     prop_oneof![
-        5 => Just(Step::Publish),
+        4 => Just(Step::Publish),
         2 => Just(Step::AwaitProcessed),
         1 => any::<bool>().prop_map(Step::Prune),
-        2 => (0u8..2, 0u8..3, prop::bool::weighted(0.25)).prop_map(|(f, n, bodyless)| Step::Import { f, n, bodyless }),
-        4 => Just(Step::Recv),
-        3 => any::<u16>().prop_map(Step::Ack),
+        3 => (0u8..2, 0u8..3, prop::bool::weighted(0.25)).prop_map(|(f, n, bodyless)| Step::Import { f, n, bodyless }),
+        5 => Just(Step::Recv),
+        4 => any::<u16>().prop_map(Step::Ack),
         1 => (0u8..40).prop_map(Step::Pause),
     ]
 }
@@ -568,7 +568,12 @@ pub fn run(mut ctx: Ctx) -> ! {
         .min_nontrivial(0.2),
         move || {
             let max = if thorough { 14 } else { 10 };
-            (prop::bool::weighted(0.6), prop::collection::vec(step(), 1..=max), any::<u16>())
+            (
+                prop::bool::weighted(0.6),
+                prop::collection::vec(step(), 3..=max),
+                // Crash points biased towards the later part of the history.
+                prop_oneof![1 => any::<u16>(), 2 => 30_000u16..=u16::MAX],
+            )
                 .prop_map(|(explicit_policy, steps, crash_raw)| Case {
                     explicit_policy,
                     steps,
